@@ -138,6 +138,10 @@ class CallMixin:
             if found and attr in self.src.classes[found[0]].classmethods:
                 yield from self.call_method(st, o, cname, attr, args, kwargs, cx, classmethod_=True)
                 return
+            from .builtins_spec import CLASS_CALLS
+            if (cname, attr) in CLASS_CALLS:
+                yield from CLASS_CALLS[(cname, attr)](self, st, args, kwargs, cx)
+                return
             raise Unsupported("class-level call %s.%s" % (cname, attr))
         ty = self.o.tyof(st, o)
         if ty == "none":
